@@ -17,6 +17,20 @@ use std::panic::{catch_unwind, AssertUnwindSafe};
 pub struct VSlot<'b, A: Elem, B: Elem> {
     pub s: BVec<'b, A>,
     pub t: Vec<B>,
+    /// the largest `len + additional` a successful reserve / with_capacity has promised since the last explicit
+    /// shrink (shrink_to_fit) or wholesale assignment (clone_from): the capacity may not fall below it
+    pub promised: usize,
+}
+
+impl<'b, A: Elem, B: Elem> VSlot<'b, A, B> {
+    pub fn new(s: BVec<'b, A>, t: Vec<B>) -> Self {
+        VSlot { s, t, promised: 0 }
+    }
+    pub fn check_promise(&self, ctx: &mut Ctx, what: &str) {
+        if std::mem::size_of::<A>() > 0 && self.s.capacity() < self.promised {
+            ctx.v("C13", format!("after {what} the capacity is {} although an earlier reserve/with_capacity promised room for {} elements and nothing shrank the vector since", self.s.capacity(), self.promised));
+        }
+    }
 }
 
 pub enum Slot<'b> {
@@ -216,7 +230,7 @@ pub fn vec_op<'b, P: Pair>(ctx: &mut Ctx, bump: &'b Bump, v: &mut VSlot<'b, P::A
     let cap_before = v.s.capacity();
     let ptr_before = v.s.as_ptr() as usize;
     let mut after = After::Keep;
-    let VSlot { s, t } = v;
+    let VSlot { s, t, promised } = v;
     match code {
         0 => {
             let x = ctx.next_val(c);
@@ -319,7 +333,7 @@ pub fn vec_op<'b, P: Pair>(ctx: &mut Ctx, bump: &'b Bump, v: &mut VSlot<'b, P::A
                 }
             };
             if let Some((ns, nt)) = r {
-                after = After::New(P::wrap(VSlot { s: ns, t: nt }));
+                after = After::New(P::wrap(VSlot::new(ns, nt)));
             }
         }
         12 => {
@@ -620,9 +634,13 @@ pub fn vec_op<'b, P: Pair>(ctx: &mut Ctx, bump: &'b Bump, v: &mut VSlot<'b, P::A
             if s.len() == len && n < 100 && s.capacity() < len + n {
                 ctx.v("C13", format!("after reserve({n}) on len {len} the capacity is only {}", s.capacity()));
             }
+            if s.len() == len && n < 100 && s.capacity() >= len + n {
+                *promised = (*promised).max(len + n);
+            }
         }
         28 => {
             ctx.both("shrink_to_fit", || s.shrink_to_fit(), || t.shrink_to_fit());
+            *promised = 0;
         }
         18 => {
             let rs = {
@@ -631,7 +649,7 @@ pub fn vec_op<'b, P: Pair>(ctx: &mut Ctx, bump: &'b Bump, v: &mut VSlot<'b, P::A
             };
             let nt = t.clone();
             match rs {
-                Ok(ns) => after = After::New(P::wrap(VSlot { s: ns, t: nt })),
+                Ok(ns) => after = After::New(P::wrap(VSlot::new(ns, nt))),
                 Err(e) => ctx.v("C13", format!("clone panicked: {}", panic_msg(e))),
             }
         }
@@ -733,13 +751,14 @@ pub fn vec_op<'b, P: Pair>(ctx: &mut Ctx, bump: &'b Bump, v: &mut VSlot<'b, P::A
     if v.s.capacity() != cap_before && cap_before != 0 {
         ctx.st(V::Reallocs);
     }
+    v.check_promise(ctx, VOP_NAMES.get(code as usize).copied().unwrap_or("an operation"));
     after
 }
 
 /// operations that consume the vector
 pub fn vec_consume<'b, P: Pair>(ctx: &mut Ctx, bump: &'b Bump, v: VSlot<'b, P::A, P::B>, code: u8, a: u8, b: u8, _c: u8) -> After<'b> {
     let _c = _c;
-    let VSlot { s, t } = v;
+    let VSlot { s, t, .. } = v;
     let len = t.len();
     match code {
         19 => {
@@ -859,7 +878,7 @@ pub fn vec_consume<'b, P: Pair>(ctx: &mut Ctx, bump: &'b Bump, v: VSlot<'b, P::A
         }
         _ => {
             let _ = bump;
-            After::Replace(P::wrap(VSlot { s, t }))
+            After::Replace(P::wrap(VSlot::new(s, t)))
         }
     }
 }
